@@ -53,7 +53,7 @@ def main(ctx):
     jobs = [{"seed": ctx.seed * 1000 + i, "tag": "lin", "writers": 2 + i % 3, "readers": 2 + i % 3,
              "n": 140 if ctx.quick else 400} for i in range(n)]
     sums = conc_runs(ctx, jobs)
-    judge(ctx, sums, "C05")
+    judge(ctx, sums, "C05", cfg="ConcTraceLin.cfg")
     ctx.samples.append({"run": sums[0]["cmd"], "lines": trace_lines(sums[0]["path"], 2, 12)})
     return finish(ctx, "model_checking", mc_coverage(ctx), ASSUME)
 
